@@ -1,4 +1,5 @@
 import SqlProofs.LexWords
+import SqlProofs.LexWordsCase
 import SqlModel.Splitter
 /-!
 # SqlProofs.LexDictWords — which dictionary words are tokens of the word rule
@@ -58,30 +59,78 @@ theorem dict_word_in_output (s : Array Cp) (p : Nat) (pre w rest : List Cp) (c :
 
 /-! ## the words with a dedicated rule, evaluated on `w;` -/
 
-/-- index of the first rule with a derivation at `p` -/
-def firstRuleIdx (E : Env) : List Rule → Nat → Nat → Option Nat
-  | [], _, _ => none
-  | r :: rs, p, i => if (matchAt E r.re p).isSome then some i else firstRuleIdx E rs p (i + 1)
+/-- word, action of the first matching rule, end of the match — on the text `w;` at position 0 -/
+def dedicated : List (String × Action × Nat) :=
+  [("CREATE", .tok T.DDL, 6), ("FROM", .tok T.Keyword, 4), ("JOIN", .tok T.Keyword, 4),
+   ("LIKE", .tok T.Comparison, 4), ("IN", .tok T.Keyword, 2), ("END", .tok T.Keyword, 3),
+   ("AS", .tok T.Keyword, 2), ("CASE", .tok T.Keyword, 4), ("REGEXP", .tok T.Comparison, 6),
+   ("RLIKE", .tok T.Comparison, 5), ("ILIKE", .tok T.Comparison, 5), ("USING", .tok T.Keyword, 5),
+   ("VALUES", .tok T.Keyword, 6), ("WITH", .kw, 4)]
 
-/-- word, index of the first matching rule, its action, end of the match — on the text `w;` at position 0 -/
-def dedicated : List (String × Nat × Action × Nat) :=
-  [("CREATE", 36, .tok T.DDL, 6), ("FROM", 16, .tok T.Keyword, 4), ("JOIN", 29, .tok T.Keyword, 4),
-   ("LIKE", 45, .tok T.Comparison, 4), ("IN", 16, .tok T.Keyword, 2), ("END", 30, .tok T.Keyword, 3),
-   ("AS", 16, .tok T.Keyword, 2), ("CASE", 16, .tok T.Keyword, 4), ("REGEXP", 46, .tok T.Comparison, 6),
-   ("RLIKE", 45, .tok T.Comparison, 5), ("ILIKE", 45, .tok T.Comparison, 5), ("USING", 16, .tok T.Keyword, 5),
-   ("VALUES", 16, .tok T.Keyword, 6), ("WITH", 47, .kw, 4)]
-
-/-- **evaluated, not universal**: on the concrete text `w;` the scan step at 0 is taken by the listed rule with the listed result
-(for `WITH` it is the word rule after all) -/
+/-- **evaluated, not universal**: on the concrete text `w;` the scan step at 0 has the listed result — a dedicated rule's token type
+for all but `WITH`, which is taken by the word rule after all (action `PROCESS_AS_KEYWORD`) -/
 theorem dedicated_rules :
     (dedicated.all fun e =>
-      decide (firstMatch (defaultCfg.env (txt e.1 ++ [59]).toArray) defaultCfg.rules 0 = some (e.2.2.1, e.2.2.2)) &&
-      decide (firstRuleIdx (defaultCfg.env (txt e.1 ++ [59]).toArray) defaultCfg.rules 0 0 = some e.2.1)) = true := by
+      decide (firstMatch (defaultCfg.env (txt e.1 ++ [59]).toArray) defaultCfg.rules 0 = some (e.2.1, e.2.2))) = true := by
   decide +kernel
 
 /-- every single-word exception is in the evaluated table -/
 theorem uncertified_covered :
     (uncertified.all fun w => (dedicated.any fun e => txt e.1 == w) || w.any (fun c => c == 32 || c == 45)) = true := by
   decide +kernel
+
+/-! ## every casing -/
+
+/-- table obligation: dictionary keys are ASCII -/
+theorem dict_ascii : (dictWords.all fun w => w.all fun c => decide (c < 128)) = true := by decide +kernel
+
+theorem ascii_of_sameFold : ∀ (w' w : Text), w'.map asciiFold = w.map asciiFold → (∀ c ∈ w, c < 128) → ∀ c ∈ w', c < 128 := by
+  intro w'
+  induction w' with
+  | nil => intro w _ _ c hc; simp at hc
+  | cons x xs ih =>
+    intro w h hw c hc
+    cases w with
+    | nil => simp at h
+    | cons y ys =>
+      simp only [List.map_cons, List.cons.injEq] at h
+      simp only [List.mem_cons] at hc
+      rcases hc with rfl | hc
+      · have hy := asciiFold_lt y (hw y (by simp))
+        rw [← h.1] at hy
+        unfold asciiFold at hy
+        split at hy <;> omega
+      · exact ih ys h.2 (fun z hz => hw z (by simp [hz])) c hc
+
+/-- **dictionary words in any casing.** For a dictionary word `w` other than the listed exceptions and any spelling `w'` of it that
+differs only in the case of ASCII letters (`select`, `Select`, `sELECT` …): before a delimiter and not right after a `.`, no earlier rule
+matches `w'`, the scan step is the word rule's over exactly `w'`, and `is_keyword` gives `w'` the dictionary type of `w`. -/
+theorem dict_word_any_case (s : Array Cp) (p : Nat) (pre w w' rest : List Cp) (c : Cp)
+    (hw : w ∈ dictWords) (hn : w ∉ uncertified) (hcase : w'.map asciiFold = w.map asciiFold)
+    (h : s.toList = pre ++ w' ++ c :: rest) (hp : pre.length = p) (hprev : pre.getLast? ≠ some 46) (hc : WordDelim c) :
+    firstMatch (defaultCfg.env s) defaultCfg.rules p = some (.kw, p + w'.length) ∧
+      isKeyword defaultCfg w' = isKeyword defaultCfg w := by
+  have hcert : wordCert w' = true := by rw [wordCert_case w' w hcase]; exact wordCert_of_dict w hw hn
+  have hascii : ∀ x ∈ w, x < 128 := by
+    have := dict_ascii
+    simp only [List.all_eq_true, decide_eq_true_eq] at this
+    exact this w hw
+  exact ⟨word_token s p pre w' rest c h hp hprev hc hcert,
+    isKeyword_case_invariant w w' hascii (ascii_of_sameFold w' w hcase hascii) hcase⟩
+
+/-- … and at a scan position the output of `lex` contains the token `(is_keyword(w), w')` -/
+theorem dict_word_any_case_in_output (s : Array Cp) (p : Nat) (pre w w' rest : List Cp) (c : Cp)
+    (hw : w ∈ dictWords) (hn : w ∉ uncertified) (hcase : w'.map asciiFold = w.map asciiFold)
+    (h : s.toList = pre ++ w' ++ c :: rest) (hp : pre.length = p) (hprev : pre.getLast? ≠ some 46) (hc : WordDelim c)
+    (hb : Boundary defaultCfg (defaultCfg.env s) p) :
+    ∃ ts before after, lex defaultCfg s = .ok ts ∧ ts = before ++ ⟨isKeyword defaultCfg w, w'⟩ :: after ∧
+      textLen before = p ∧ Boundary defaultCfg (defaultCfg.env s) (p + w'.length) := by
+  obtain ⟨hfm, hty⟩ := dict_word_any_case s p pre w w' rest c hw hn hcase h hp hprev hc
+  obtain ⟨ts, before, after, h1, h2, h3, h4⟩ := lex_emits_act s p .kw _ hb hfm
+  have hv : (s.extract p (p + w'.length)).toList = w' :=
+    extract_region s pre w' (c :: rest) p (by simpa using h) hp
+  rw [hv] at h2
+  simp only [tokType, hty] at h2
+  exact ⟨ts, before, after, h1, h2, h3, h4⟩
 
 end Sql
